@@ -154,7 +154,7 @@ impl<'i> InterfaceGenerator<'i> {
                     _ => continue,
                 }
                 resources_to_drop.push(name);
-                let camel = name.to_upper_camel_case();
+                let camel = to_upper_camel_case(name);
                 traits.insert(Some(*id), (format!("Guest{camel}"), Vec::new()));
             }
         }
@@ -337,11 +337,7 @@ macro_rules! {macro_name} {{
             let ty = match resource {
                 None => "$ty".to_string(),
                 Some(id) => {
-                    let name = self.resolve.types[id]
-                        .name
-                        .as_ref()
-                        .unwrap()
-                        .to_upper_camel_case();
+                    let name = to_upper_camel_case(self.resolve.types[id].name.as_ref().unwrap());
                     format!("<$ty as $($path_to_types)*::Guest>::{name}")
                 }
             };
@@ -355,7 +351,7 @@ macro_rules! {macro_name} {{
                     unreachable!()
                 }
             };
-            let camel = name.to_upper_camel_case();
+            let camel = to_upper_camel_case(name);
             uwriteln!(
                 self.src,
                 r#"
@@ -389,11 +385,7 @@ macro_rules! {macro_name} {{
     ) {
         uwriteln!(self.src, "pub trait {trait_name} {{");
         for (id, trait_name) in resource_traits {
-            let name = self.resolve.types[id]
-                .name
-                .as_ref()
-                .unwrap()
-                .to_upper_camel_case();
+            let name = to_upper_camel_case(self.resolve.types[id].name.as_ref().unwrap());
             uwriteln!(self.src, "type {name}: {trait_name};");
         }
         for method in methods {
@@ -1395,7 +1387,7 @@ unsafe fn call_import(&mut self, _params: Self::ParamsLower, _results: *mut u8) 
                         TypeDefKind::Resource => {}
                         _ => continue,
                     }
-                    let camel = name.to_upper_camel_case();
+                    let camel = to_upper_camel_case(name);
                     uwriteln!(extra_trait_items, "type {camel} = Stub;");
 
                     let resource_methods = funcs.remove(&Some(*id)).unwrap_or(Vec::new());
@@ -2991,7 +2983,7 @@ impl<'a> {camel}Borrow<'a>{{
         let repr = RustFlagsRepr::new(flags);
         self.src.push_str(&format!(
             "#[derive(PartialEq, Eq, PartialOrd, Ord, Hash, Debug, Clone, Copy)]\npub struct {}: {repr} {{\n",
-            name.to_upper_camel_case(),
+            to_upper_camel_case(name),
         ));
         for (i, flag) in flags.flags.iter().enumerate() {
             self.rustdoc(&flag.docs);
@@ -3159,11 +3151,8 @@ impl<'a, 'b> wit_bindgen_core::AnonymousTypeGenerator<'a> for AnonTypeGenerator<
                 assert!(self.mode.lifetime.is_some());
                 let lt = self.mode.lifetime.unwrap();
                 if self.interface.is_exported_resource(*ty) {
-                    let camel = self.resolve.types[*ty]
-                        .name
-                        .as_deref()
-                        .unwrap()
-                        .to_upper_camel_case();
+                    let camel =
+                        to_upper_camel_case(self.resolve.types[*ty].name.as_deref().unwrap());
                     let name = format!("{camel}Borrow");
                     self.interface
                         .push_str(&self.interface.type_path_with_name(*ty, name));
